@@ -1,5 +1,5 @@
 //@ unit U-SESSCUT
-//@ props C15
+//@ props C15 C14
 //@ verus-args --rlimit 200
 //@ config MAX_XORB_BYTES MAX_XORB_CHUNKS
 //@ rules-from cacheacct
@@ -57,6 +57,18 @@ fn drop(guard: &mut DataAggregator)
     requires /*@C15*/ lock_inv(*old(guard)),
     ensures *final(guard) == *old(guard),
 { }
+
+// the 13 counter sums of DeduplicationMetrics::merge_in fit usize (its precondition, verbatim)
+spec fn metrics_add_fits(a: DeduplicationMetrics, b: DeduplicationMetrics) -> bool {
+    &&& a.total_bytes + b.total_bytes <= usize::MAX &&& a.deduped_bytes + b.deduped_bytes <= usize::MAX
+    &&& a.new_bytes + b.new_bytes <= usize::MAX &&& a.deduped_bytes_by_global_dedup + b.deduped_bytes_by_global_dedup <= usize::MAX
+    &&& a.defrag_prevented_dedup_bytes + b.defrag_prevented_dedup_bytes <= usize::MAX
+    &&& a.total_chunks + b.total_chunks <= usize::MAX &&& a.deduped_chunks + b.deduped_chunks <= usize::MAX
+    &&& a.new_chunks + b.new_chunks <= usize::MAX &&& a.deduped_chunks_by_global_dedup + b.deduped_chunks_by_global_dedup <= usize::MAX
+    &&& a.defrag_prevented_dedup_chunks + b.defrag_prevented_dedup_chunks <= usize::MAX
+    &&& a.xorb_bytes_uploaded + b.xorb_bytes_uploaded <= usize::MAX &&& a.shard_bytes_uploaded + b.shard_bytes_uploaded <= usize::MAX
+    &&& a.total_bytes_uploaded + b.total_bytes_uploaded <= usize::MAX
+}
 
 // ---- the xorb's byte count -----------------------------------------------------------------------------------------------------------
 spec fn sum_arc_len(d: Seq<Arc<[u8]>>) -> nat decreases d.len() {
@@ -176,26 +188,32 @@ impl FileUploadSession {
         assert(/*@C15*/ xorb_data@.len() > 0);
 //@ end
 
-// cut-or-merge: the critical section of register_single_file_clean_completion after the lock is taken
+// the WHOLE body of register_single_file_clean_completion.  The two tokio mutexes are modelled as exclusive `&mut` parameters for
+// the duration of the call: each `self.<field>.lock().await` becomes a reborrow of the corresponding parameter (R11 stub of the
+// mutex + guard).  The session aggregator is locked twice (critical section; `#[cfg(debug_assertions)]` block, kept as obligations).
 //@ extract data/src/file_upload_session.rs in `impl FileUploadSession` region register_single_file_clean_completion
-//@ from-after `let mut current_session_data = self.current_session_data.lock().await;`
-//@ to `else { current_session_data.merge_in(file_data); }`
-//@ sig `fn register_single_file_clean_completion__cut(self: &Arc<Self>, current_session_data: &mut DataAggregator, mut file_data: DataAggregator) -> (ret: Result<()>)`
-//@ epilogue `Ok(())`
+//@ block `) -> Result<()> {`
+//@ sig `fn register_single_file_clean_completion__body(self: &Arc<Self>, mut file_data: DataAggregator, dedup_metrics: &DeduplicationMetrics, vx_session_data: &mut DataAggregator, vx_session_metrics: &mut DeduplicationMetrics) -> (ret: Result<()>)`
+//@ subst `self.current_session_data.lock()` => `(&mut *vx_session_data)` :: R11 mutex stub: the guard of `current_session_data` is a reborrow of the exclusive `&mut DataAggregator` parameter (both lock sites)
+//@ optsubst `self.deduplication_metrics.lock()` => `(&mut *vx_session_metrics)` :: R11 mutex stub: the guard of `deduplication_metrics` is a reborrow of the exclusive `&mut DeduplicationMetrics` parameter
 //@ contract
         requires
-            // the lock invariant, assumed when the guard is obtained
-            lock_inv(*old(current_session_data)),
+            // the lock invariant of the session aggregator, assumed when its guard is obtained
+            lock_inv(*old(vx_session_data)),
             // what the file's deduper hands over (U-DEDUP istruct, U-AGG new)
             file_data.agg_wf(), file_data.within_limits(),
             // configuration, needed only by a debug assertion in merge_in (see U-AGG notes)
             spec_MAX_XORB_CHUNKS() <= spec_MAX_XORB_BYTES(),
+            // the overflow preconditions of DeduplicationMetrics::merge_in (usize counters; 13 sums)
+            metrics_add_fits(*old(vx_session_metrics), *dedup_metrics),
         ensures
-            // the guard is released at the end of the region (or earlier by drop): lock invariant again, on every path
-            /*@C15*/ lock_inv(*final(current_session_data)),
+            // every release of the guard (explicit drop, end of either block, early Err return) leaves the lock invariant
+            /*@C15*/ lock_inv(*final(vx_session_data)),
+            // C14 "session metrics are the sums over its files": a successful completion adds exactly this file's metrics
+            /*@C14*/ ret is Ok ==> metrics_sum(*old(vx_session_metrics), *dedup_metrics, *final(vx_session_metrics)),
             // the decision is exact: merged iff the sum fits both limits, otherwise the larger one (in bytes) is cut
-            ({
-                let s = *old(current_session_data); let f = file_data; let t = *final(current_session_data);
+            /*@C15*/ ({
+                let s = *old(vx_session_data); let f = file_data; let t = *final(vx_session_data);
                 if s.num_bytes + f.num_bytes <= spec_MAX_XORB_BYTES() && s.chunks@.len() + f.chunks@.len() <= spec_MAX_XORB_CHUNKS() {
                     ret is Ok && t.chunks@ == s.chunks@ + f.chunks@ && t.num_bytes == s.num_bytes + f.num_bytes
                     && t.pending_file_info@.len() == s.pending_file_info@.len() + f.pending_file_info@.len()
